@@ -26,6 +26,12 @@ CORPUS = [
     ("array", ("scalar", 2), [None, 3, 4], [0, 2, 1]),
     ("array", ("scalar", 0), [None, 3], [1, 0]),
     ("struct", "SP", [("k", ("scalar", 6)), ("m", ("array", ("scalar", 6), [None, 3, 2], [2, 0, 1]))]),
+    # dynamically sized ITEMS in a dynamic-shape array with a non-C axis order: the stride words of the header (read only by the
+    # generated C, never by the Python view) address the offset table, which is kept in memory order
+    ("array", ("string",), [None, 4], [1, 0]),
+    ("array", ("array", ("scalar", 2), [None], [0]), [2, None, 2], [2, 0, 1]),
+    # three array levels on one path: the index arguments are numbered across the levels
+    ("struct", "Grid", [("cells", ("array", ("struct", "Cell", [("corners", ("array", ("struct", "Corner", [("coords", ("array", ("scalar", 0), [3], [0]))]), [2, 2], [0, 1]))]), [None], [0]))]),
 ]
 
 
